@@ -9,6 +9,7 @@ import DeadpoolVerif.Model.RedisConfig
 import DeadpoolVerif.Model.Sync
 import DeadpoolVerif.Model.SyncPools
 import DeadpoolVerif.Model.RedisRecycle
+import DeadpoolVerif.Model.PgPool
 
 open DeadpoolVerif
 
@@ -636,12 +637,167 @@ def handle (p : Pool) (ws : List String) : Pool × String :=
 
 end RpDrv
 
+namespace PwDrv
+open PgP
+
+structure PwState where
+  method : Pg.RecyclingMethod
+  pool : State
+  closed : List Nat := []
+  caches : List (Nat × Cache) := []
+  serials : List (Nat × Nat) := []
+  taken : List Nat := []
+
+def cacheOf (d : PwState) (id : Nat) : Cache :=
+  match d.caches.find? (·.1 == id) with
+  | some (_, c) => c
+  | none => { conn := id }
+
+def setCache (d : PwState) (id : Nat) (c : Cache) : PwState :=
+  { d with caches := (id, c) :: d.caches.filter (·.1 != id) }
+
+def serialOf (d : PwState) (id : Nat) : Nat :=
+  match d.serials.find? (·.1 == id) with
+  | some (_, n) => n
+  | none => 0
+
+def obs (d : PwState) (extra : String) : String :=
+  let st := d.pool.status
+  s!"pwobs {extra} size={st.2.1} avail={st.2.2.1} max={st.1}"
+
+def parseReply : String → Option QueryReply
+  | "ok" => some .ok
+  | "error" => some .error
+  | "disconnect" => some .disconnect
+  | _ => none
+
+/-- one get(), alone; every `Manager::recycle` on an open client whose method has a query
+consumes the next scripted reply -/
+def soloGet (d : PwState) (i : Nat) (replies : List QueryReply) : Nat → PwState × List (Nat × String)
+  | 0 => (d, [])
+  | fuel + 1 =>
+    match d.pool.ops[i]? with
+    | some (.get _ (.recycling k o _)) =>
+      if k = d.pool.cfg.pre.length then
+        let closed := d.closed.contains o.id
+        let sends := !closed && d.method.query.isSome
+        let r := if sends then replies.headD .ok else .ok
+        let (sent, ok) := recycle closed d.method r
+        let d1 := if sends && r == .disconnect then { d with closed := o.id :: d.closed } else d
+        match step d.pool (.step i (if ok then .ok else .err)) with
+        | some s' =>
+          let (d', qs) := soloGet { d1 with pool := s' } i (if sends then replies.tail else replies) fuel
+          (d', (match sent with | some q => [(o.id, q)] | none => []) ++ qs)
+        | none => (d, [])
+      else
+        match step d.pool (.step i .ok) with
+        | some s' => soloGet { d with pool := s' } i replies fuel
+        | none => (d, [])
+    | some (.get _ (.creating _)) | some (.get _ (.postCreate ..)) =>
+      match step d.pool (.step i .ok) with
+      | some s' => soloGet { d with pool := s' } i replies fuel
+      | none => (d, [])
+    | some .done | none => (d, [])
+    | some _ =>
+      match step d.pool (.step i .run) with
+      | some s' => soloGet { d with pool := s' } i replies fuel
+      | none => (d, [])
+
+def parseTypes (t : String) : List Nat := if t == "-" then [] else (t.splitOn ",").filterMap String.toNat?
+
+def showSizes (d : PwState) (ids : List Nat) : String :=
+  ",".intercalate ((sortNat ids).map fun id => s!"{id}:{(cacheOf d id).size}")
+
+def handle (d : PwState) (ws : List String) : PwState × String :=
+  match ws with
+  | "get" :: toks =>
+    match step d.pool (.start (.get { wait := .zero })) with
+    | some s1 =>
+      let i := d.pool.ops.length
+      let (d', qs) := soloGet { d with pool := s1 } i (toks.filterMap parseReply) 200
+      let newEvs := d'.pool.log.drop d.pool.log.length
+      let res := newEvs.findSome? fun | .result j r => if j == i then some r else none | _ => none
+      let shown := ",".intercalate (qs.map fun (id, q) => s!"{id}:{RdDrv.hex q}")
+      (d', obs d' s!"res={match res with | some r => SpDrv.showRes r | none => "unfinished"} queries=[{shown}]")
+    | none => (d, "reject")
+  | ["ret", id] =>
+    match id.toNat?.bind fun id => (step d.pool (.start (.ret id))).map fun s1 => RR.soloOther s1 d.pool.ops.length 50 with
+    | some s' => let d' := { d with pool := s' }; (d', obs d' "done")
+    | none => (d, "reject")
+  | ["take", id] =>
+    match id.toNat? with
+    | some id =>
+      match (step d.pool (.start (.take id))).map fun s1 => RR.soloOther s1 d.pool.ops.length 50 with
+      | some s' => let d' := { d with pool := s', taken := id :: d.taken }; (d', obs d' "done")
+      | none => (d, "reject")
+    | none => (d, "bad-op")
+  | ["kill", id] =>
+    match id.toNat? with
+    | some id => let d' := { d with closed := id :: d.closed }; (d', obs d' "done")
+    | none => (d, "bad-op")
+  | ["prep", id, q, t] =>
+    match id.toNat? with
+    | some id =>
+      let k : Key := { query := q, types := parseTypes t }
+      let (c', st, rt) := (cacheOf d id).prepareTyped (serialOf d id) k
+      let d' := setCache d id c'
+      let d' := { d' with serials := (id, serialOf d id + rt) :: d'.serials.filter (·.1 != id) }
+      (d', s!"pwobs prep stmt={st.conn}:{st.serial} rt={rt} csize={c'.size}")
+    | none => (d, "bad-op")
+  | ["prep2", id, q, t, order] =>
+    -- two concurrent prepares of one key: both look up first, then both insert
+    match id.toNat? with
+    | some id =>
+      let k : Key := { query := q, types := parseTypes t }
+      let c := cacheOf d id
+      if (c.get k).isSome then (d, s!"pwobs prep2 rt=0 csize={c.size}") else
+      let n := serialOf d id
+      -- `order`: which insert came last is the scheduler's choice, observed on the real run
+      let c' := if order == "10" then (c.apply (.insert k (n + 1))).apply (.insert k n)
+                else (c.apply (.insert k n)).apply (.insert k (n + 1))
+      let d' := setCache d id c'
+      ({ d' with serials := (id, n + 2) :: d'.serials.filter (·.1 != id) }, s!"pwobs prep2 rt=2 csize={c'.size}")
+    | none => (d, "bad-op")
+  | ["rm", id, q, t] =>
+    match id.toNat? with
+    | some id =>
+      let c' := (cacheOf d id).remove { query := q, types := parseTypes t }
+      (setCache d id c', s!"pwobs done csize={c'.size}")
+    | none => (d, "bad-op")
+  | ["clear", id] =>
+    match id.toNat? with
+    | some id => (setCache d id (cacheOf d id).clear, "pwobs done csize=0")
+    | none => (d, "bad-op")
+  | ["regclear"] =>
+    let ids := (List.range d.pool.nextId).filter (registered d.pool)
+    (ids.foldl (fun d id => setCache d id (cacheOf d id).clear) d, "pwobs done")
+  | ["regrm", q, t] =>
+    let ids := (List.range d.pool.nextId).filter (registered d.pool)
+    (ids.foldl (fun d id => setCache d id ((cacheOf d id).remove { query := q, types := parseTypes t })) d, "pwobs done")
+  | ["sizes"] =>
+    let idle := sortNat (d.pool.idle.map fun o => (cacheOf d o.id).size)
+    (d, s!"pwobs sizes held=[{showSizes d (d.pool.out.map (·.id))}] taken=[{showSizes d d.taken}] " ++
+        s!"idle=[{",".intercalate (idle.map toString)}]")
+  | _ => (d, "bad-op")
+
+def cfg (ws : List String) : Option PwState :=
+  let kvs := ws.map kv
+  let m : Option Pg.RecyclingMethod := match lookup kvs "method" "" with
+    | "fast" => some .fast | "verified" => some .verified | "clean" => some .clean
+    | "custom" => some (.custom (RdDrv.unhex (lookup kvs "sql" "e"))) | _ => none
+  match m, (lookup kvs "max" "").toNat? with
+  | some m, some n => some { method := m, pool := init { maxSize := n, rt := true } }
+  | _, _ => none
+
+end PwDrv
+
 structure DState where
   managed : Option State := none
   unmanaged : Option U.State := none
   sync : Option Sy.State := none
   sp : Option SpDrv.SpState := none
   rp : Option RR.Pool := none
+  pw : Option PwDrv.PwState := none
 
 def handle (d : DState) (line : String) : DState × Option String :=
   let ws := (line.trimAscii.toString.splitOn " ").filter (· ≠ "")
@@ -670,6 +826,16 @@ def handle (d : DState) (line : String) : DState × Option String :=
     match d.rp with
     | some st => let (st', out) := RpDrv.handle st rest; ({ d with rp := some st' }, some out)
     | none => (d, some "bad-op")
+  | "pw" :: "cfg" :: rest =>
+    match PwDrv.cfg rest with
+    | some st => ({ d with pw := some st }, some "pwobs cfg ok")
+    | none => (d, some "bad-cfg")
+  | "pw" :: rest =>
+    match d.pw with
+    | some st => let (st', out) := PwDrv.handle st rest; ({ d with pw := some st' }, some out)
+    | none => (d, some "bad-op")
+  | "pwobs" :: _ => (d, none)
+  | "pwx" :: _ => (d, none)
   | "rpobs" :: _ => (d, none)
   | "rpx" :: _ => (d, none)
   | "spobs" :: _ => (d, none)
